@@ -238,3 +238,15 @@ Definition ph_wf (nq : nat) (x : instr) : bool :=
   | _ => true
   end.
 Definition sub_wf (nq : nat) (sub : circ) : bool := resets_wf nq sub && forallb (ph_wf nq) sub.
+
+(* full well-formedness of a subcircuit on nq qubits / nc clbits: ResetPasses.wf_instr (indices in range; Reset one qubit,
+   no clbit; Measure one qubit, one clbit) plus the arities QuantumCircuit.append enforces for the cutting instructions *)
+Definition sub_instr_ok (nq nc : nat) (x : instr) : bool :=
+  wf_instr nq nc x &&
+  match iop x with
+  | Qpd1 _ _ _ _ => Nat.eqb (List.length (iqs x)) 1 && Nat.eqb (List.length (ics x)) 0
+  | Qpd2 _ _ _ => Nat.eqb (List.length (iqs x)) 2 && Nat.eqb (List.length (ics x)) 0
+  | QpdMeasure => Nat.eqb (List.length (iqs x)) 1 && Nat.eqb (List.length (ics x)) 0
+  | _ => true
+  end.
+Definition sub_ok (nq nc : nat) (sub : circ) : bool := forallb (sub_instr_ok nq nc) sub.
